@@ -153,13 +153,30 @@ func recvRetain() {
 	if cur := ledger.Install; cur != nil {
 		kit.Count("buffer-reused")
 	}
-	for _, s := range kept {
-		// the message is the application's: it may scribble on it and must be able to free it
-		for i := range s.M.Body {
-			s.M.Body[i] ^= 0xff
+	for i, s := range kept {
+		// the message is the application's: it may scribble on it - header and body, whatever
+		// else it still holds from the same peer stays as it was - and must be able to free it
+		for j := range s.M.Body {
+			s.M.Body[j] ^= 0xff
+		}
+		for j := range s.M.Header {
+			s.M.Header[j] ^= 0xff
+		}
+		if len(s.M.Header) > 0 {
+			kit.Count("received-header-overwritten")
+		}
+		for _, o := range kept[i+1:] {
+			o.Check("after the application overwrote another message it had received")
 		}
 		s.M.Free()
 	}
+	// what arrives next from that peer is as the peer sent it
+	last := recv("after-scribble", 33)
+	if k.Raw && len(kept) > 0 && len(kept[0].Header) > 0 && string(last.Header) != string(kept[0].Header) && len(last.Header) == len(kept[0].Header) && k.Wire == "plain" {
+		// (raw BUS: the header is the id of the connection the message came from - the same connection)
+		kit.Failf("message-changed-after-recv", "%s: a message received from the same connection after the application had overwritten an earlier one carries header %x, the earlier ones had %x", k.Name, last.Header, kept[0].Header)
+	}
+	last.Free()
 	kit.Observe("%s", k.Name)
 	kit.Must("Close", func() { _ = x.S.Close() })
 }
